@@ -32,11 +32,14 @@ def d3_scale_bilinear(domain, _range, uninterpolate, interpolate):
 
 
 def d3_uninterpolateNumber(a, b):
-    return lambda x: (x - a) / (b - a)
+    # as in d3: a degenerate domain maps everything to the start of the range
+    b = (b - a) or math.inf
+    return lambda x: (x - a) / b
 
 
 def d3_uninterpolateClamp(a, b):
-    return lambda x: max(0, min(1, (x - a) / (b - a)))
+    b = (b - a) or math.inf
+    return lambda x: max(0, min(1, (x - a) / b))
 
 
 def d3_interpolate(a, b):
